@@ -7,11 +7,12 @@
 #include "vtrace.h"
 
 #define MAXID 64
-static uintptr_t kmap[MAXID], vmap[MAXID]; static int nk, nv;
+static uintptr_t kmap[MAXID], vmap[MAXID]; static int nk, nv; static int vset[MAXID];
 static PHashTable *ht; static PList *lst;
 
 static int key_id (ppointer p) { int i; for (i = 1; i <= nk; i++) if ((uintptr_t) p == kmap[i]) return i; return 0; }
-static int val_id (ppointer p) { int i; for (i = 1; i <= nv; i++) if ((uintptr_t) p == vmap[i]) return i; return (uintptr_t) p == (uintptr_t) -1 ? -1 : -2; }
+/* the all-ones pattern is reported as -1 whether it is the not-found marker or a stored value (model value id 9 by convention) */
+static int val_id (ppointer p) { int i; if ((uintptr_t) p == (uintptr_t) -1) return -1; for (i = 1; i <= nv; i++) if ((uintptr_t) p == vmap[i]) return i; return -2; }
 static int cmp_int (const void *a, const void *b) { return *(const int *) a - *(const int *) b; }
 static pint vcmp (pconstpointer a, pconstpointer b) { return a == b ? 0 : ((uintptr_t) a < (uintptr_t) b ? -1 : 1); }
 
@@ -38,11 +39,11 @@ int main (int argc, char **argv) {
 		a = b = 0; hex[0] = 0;
 		if (sscanf (line, "%31s", op) < 1) continue;
 		if (!strcmp (op, "kmap")) { sscanf (line, "%*s %d %63s", &a, hex); kmap[a] = (uintptr_t) strtoull (hex, NULL, 16); if (a > nk) nk = a; }
-		else if (!strcmp (op, "vmap")) { sscanf (line, "%*s %d %63s", &a, hex); vmap[a] = (uintptr_t) strtoull (hex, NULL, 16); if (a > nv) nv = a; }
+		else if (!strcmp (op, "vmap")) { sscanf (line, "%*s %d %63s", &a, hex); vmap[a] = (uintptr_t) strtoull (hex, NULL, 16); vset[a] = 1; if (a > nv) nv = a; }
 		else if (!strcmp (op, "reset")) {
 			if (ht) { p_hash_table_free (ht); ht = NULL; }
 			if (lst) { p_list_free (lst); lst = NULL; }
-			nk = nv = 0;
+			nk = nv = 0; memset (vset, 0, sizeof vset);
 			vt_emit ("{\"e\":\"Reset\"}");
 		}
 		else if (!strcmp (op, "hnew")) { ht = p_hash_table_new (); if (!ht) vt_die ("hnew"); vt_emit ("{\"e\":\"hnew\"}"); }
@@ -56,13 +57,15 @@ int main (int argc, char **argv) {
 			VT ("],\"keys\":"); l = p_hash_table_keys (ht); emit_list (l, 1, 1); p_list_free (l);
 			VT (",\"vals\":"); l = p_hash_table_values (ht); emit_list (l, 0, 1); p_list_free (l);
 			VT (",\"lbv\":[");
+			{ int first = 1;
 			for (i = 1; i <= nv; i++) {
-				VT ("%s[%d,", i > 1 ? "," : "", i);
+				if (!vset[i]) continue;
+				VT ("%s[%d,", first ? "" : ",", i); first = 0;
 				l = p_hash_table_lookup_by_value (ht, (ppointer) vmap[i], NULL); emit_list (l, 1, 1); p_list_free (l);
 				VT (",");
 				l = p_hash_table_lookup_by_value (ht, (ppointer) vmap[i], vcmp); emit_list (l, 1, 1); p_list_free (l);
 				VT ("]");
-			}
+			} }
 			VT ("]}"); VT_END ();
 		}
 		else if (!strcmp (op, "lapp")) { sscanf (line, "%*s %d", &a); lst = p_list_append (lst, (ppointer) vmap[a]); vt_emit ("{\"e\":\"lapp\",\"x\":%d}", a); }
